@@ -327,6 +327,8 @@ def match_known(known, prop, v):
             continue
         if 'src' in k and _param_str(v) not in k['src']:
             continue
+        if 'src_re' in k and not re.search(k['src_re'], _param_str(v) or ''):
+            continue
         cls = k.get('where')
         if cls:
             vals = {}
